@@ -12,6 +12,14 @@ EXEC_TRUST = ("Trusted base: TLC 1.8.0, spec/JetExec.tla + JetProg.tla (the inte
               "Go data kinds beyond the harness catalogue are not explored.")
 
 CHECKS = {
+ "C05": dict(
+   technique="TLA+ JetExec (DoIf/IfExit, DoRange/RangeStep with the binding table per ranger kind and variable form) model-checked "
+             "by TLC over Gen_C05; every behaviour replayed on the real interpreter with a Go data catalogue for condition values",
+   text="TLC enumerates single ifs over condition values of every Go kind, else-if chains with every truth assignment, and range "
+        "over every subject kind x length x variable form x assignment form x '_' placement x else, plus nested ranges and ranges "
+        "left early by return; the specification's truthiness is the property's (only false, 0, \"\" and nil are falsy) and its "
+        "bindings are the documented ones. The real library must render the same bytes (maps compared as multisets).",
+   design_ref="DESIGN.md §5 C05", note=EXEC_TRUST),
  "C07": dict(
    technique="TLA+ JetExec interpreter machine model-checked by TLC over scoping program families (Gen_C07: wrapper paths x "
              "declare/rebind/shadow focals, loop-variable capture per ranger kind); every behaviour replayed on the real interpreter",
